@@ -213,6 +213,8 @@ def all_configs():
         combos.append([pay[(i + 7) % len(pay)], 'none', p])
     for n, c in enumerate(combos):
         for r in reprs:
+            if r == 'C, u8' and all(PAYLOADS[x] is None for x in c):
+                continue   # rustc rejects repr(C, u8) on a fieldless enum (E0566): not a derive request
             if (n + reprs.index(r)) % 3 != 0 and r is not None and len(c) > 1:
                 continue   # thin the repr dimension for multi-variant combos (every combo gets None + a third of the reprs)
             out.append((c, r, None))
